@@ -570,12 +570,23 @@ def _interpret(e: dict, pkg, schema, snake: bool, root_kind: Optional[str] = Non
             obj = member(*pos, **kwargs)
         except Exception as ex:  # noqa: the generated builder method itself failed
             raise BuilderRaised("%s.%s(**%r) raised %s: %s" % (holder.__name__, attr, sorted(kwargs), type(ex).__name__, str(ex)[:200]))
+    def _api(what, fn, *a_):
+        # (a call into the generated builder: whatever it raises is the builder's doing, not the harness's)
+        try:
+            return fn(*a_)
+        except (BuilderRaised, Unresolvable):
+            raise
+        except Exception as ex:  # noqa
+            raise BuilderRaised("%s on %s raised %s: %s" % (what, e["gql"], type(ex).__name__, str(ex)[:200]))
+
     if e["alias"]:
-        obj = obj.alias(e["alias"])
+        obj = _api(".alias()", obj.alias, e["alias"])
     if e["sub"]:
-        obj = obj.fields(*[interpret(s, pkg, schema, snake, shared=shared) for s in e["sub"]])
+        subs_ = [interpret(s, pkg, schema, snake, shared=shared) for s in e["sub"]]
+        obj = _api(".fields()", obj.fields, *subs_)
     for tn, subs in e["on"].items():
-        obj = obj.on(tn, *[interpret(s, pkg, schema, snake, shared=shared) for s in subs])
+        subs_ = [interpret(s, pkg, schema, snake, shared=shared) for s in subs]
+        obj = _api(".on()", obj.on, tn, *subs_)
     return obj
 
 
